@@ -14,7 +14,7 @@ TRUSTED = [
 ASSUME = [
     'code between two logged shared-object operations touches only thread-local state',
     'executor="process": same mpservice code path with a stdlib ProcessPoolExecutor (trusted, exercised only by the repository tests)',
-    'completeness (one output for every input once the iteration completes) and call-once are checked by the oracle on every explored run; their theorems are listed as _todo in Props/C01.v',
+    'completeness and call-once are theorems (C01_fifo_complete, C01_calls_once) and are also checked by the oracle on every explored run',
 ]
 
 
